@@ -156,10 +156,14 @@ def _judge_model(kind, case, rec, family):
     steps = int(rng.integers(5, 41))
     if kind == "lganm":
         W = gmat.weighted(rng, out, "signed") if case["k"] % 2 else gmat.weighted(rng, out, "int", dtype=int)
+        if (case["k"] // 3) % 3 == 1:
+            W = gmat.weighted(rng, out, "tiny")        # non-zero weights down to 5e-324: a caller's array all the same
         means = np.round(rng.uniform(-2, 2, p), 2) if case["k"] % 4 else rng.integers(-2, 3, p)
         variances = np.round(rng.uniform(0.2, 3, p), 2) if case["k"] % 4 else rng.integers(1, 4, p)
         W0, m0, v0 = W.copy(), means.copy(), variances.copy()
         model = sempler.LGANM(W, means, variances)
+        if not (np.array_equal(W, W0) and np.array_equal(means, m0) and np.array_equal(variances, v0)):
+            rec.violation("C14:argument-modified-by-LGANM.__init__", family, case, "the constructor modified the caller's W / means / variances")
         first = model.sample(population=True)
         first_copy = (np.array(first.mean, copy=True), np.array(first.covariance, copy=True))
         n_iv = 0
@@ -224,7 +228,7 @@ def _judge_model(kind, case, rec, family):
                 rec.violation("C14:lganm-attribute-changed", family, case, "attribute %s differs from the constructor argument" % name)
         return n_iv > 0
     if kind == "anm":
-        A = gmat.weighted(rng, out, "signed") if case["k"] % 2 else gmat.to_np(out)
+        A = gmat.weighted(rng, out, ("signed", "tiny", "signed")[(case["k"] // 3) % 3]) if case["k"] % 2 else gmat.to_np(out)
         inn = G.transpose(out)
 
         def mk_assign(i):
